@@ -120,3 +120,56 @@ class Faults:
 
     def affected(self):
         return {k[0] for k in self.search} | set(self.graph) | set(self.merge)
+
+
+
+class SkewedClock:
+    """A machine on which time passes much faster: every reading of a Python clock (time.time / monotonic / perf_counter and
+    their _ns variants) is `step` seconds later than the previous one.  Code that never consults the clock is unaffected;
+    code whose result depends on elapsed time (an undocumented time limit, a deadline) behaves as on a slow or loaded
+    machine.  Only for stages without documented wall-clock timeouts (everything before the MCS search)."""
+
+    NAMES = ("time", "monotonic", "perf_counter")
+
+    def __init__(self, step=30.0):
+        self.step = step
+        self.reads = 0
+        self._saved = []
+
+    def __enter__(self):
+        import sys
+        import time as T
+
+        S = self
+        originals = {n: getattr(T, n) for n in self.NAMES}
+        originals.update({n + "_ns": getattr(T, n + "_ns") for n in self.NAMES})
+
+        def make(name):
+            orig = originals[name]
+            scale = 10**9 if name.endswith("_ns") else 1
+
+            def fake():
+                S.reads += 1
+                return orig() + type(orig())(S.reads * S.step * scale)
+
+            return fake
+
+        fakes = {n: make(n) for n in originals}
+        for n, f in fakes.items():
+            self._saved.append((T, n, originals[n]))
+            setattr(T, n, f)
+        # `from time import monotonic` style references inside the package under test
+        for mname, mod in list(sys.modules.items()):
+            if not mname.startswith("synrbl") or mod is None:
+                continue
+            for attr, val in list(vars(mod).items()):
+                for n, o in originals.items():
+                    if val is o:
+                        self._saved.append((mod, attr, o))
+                        setattr(mod, attr, fakes[n])
+        return self
+
+    def __exit__(self, *a):
+        for obj, name, old in reversed(self._saved):
+            setattr(obj, name, old)
+        self._saved = []
